@@ -12,7 +12,7 @@ from typing import Dict, Optional, Set
 
 from ..core import Ctx
 from ..model import body_stmts, canon, norm, walk_no_nested
-from .common import expand_locals, prog, quant_norm
+from .common import conditions_at as _conditions_at, expand_locals, prog, quant_norm
 
 SPECS: Dict[str, Set[str]] = {
     "Continuum.num_units": {"sum((len(units) for units in self._annotations.values()))"},
@@ -135,6 +135,51 @@ def check_accessor(ctx: Ctx, qn: str, rule: str = "R-SUP") -> None:
                   "category_weights is keyed by the labels exactly as the units carry them, in a sorted mapping",
                   bad_detail=f"category_weights counts under `{norm(expand_locals(f.node, keys[0]))}`, not under the unit's label itself: its keys are not the labels the units carry",
                   key="category-weights")
+        # ... and the value under a label is (number of units carrying it) / (number of units): counted by ones, divided once by a count of the units
+        K = f"{u}.annotation"
+        counts = []      # (node, what it adds / sets, ok)
+        for s_ in ast.walk(L):
+            if isinstance(s_, ast.AugAssign) and isinstance(s_.target, ast.Subscript) and norm(s_.target.value) == W:
+                counts.append((s_, isinstance(s_.op, ast.Add) and norm(s_.value) == "1"))
+            elif isinstance(s_, ast.Assign) and isinstance(s_.targets[0], ast.Subscript) and norm(s_.targets[0].value) == W:
+                v = norm(s_.value)
+                first = any(isinstance(t, ast.Compare) and isinstance(t.ops[0], ast.In) and norm(t.comparators[0]) == W and not pol or
+                            isinstance(t, ast.Compare) and isinstance(t.ops[0], ast.NotIn) and norm(t.comparators[0]) == W and pol
+                            for t, pol in _conditions_at(f.node, s_))
+                counts.append((s_, (v == "1" and first) or v in (f"{W}.get({K}, 0) + 1", f"1 + {W}.get({K}, 0)")))
+        # the number of units: a local started at 0 and stepped by 1 once per unit, the index of enumerate(self, start=1), or self.num_units / len
+        n_names = set()
+        for s_ in L.body:
+            if isinstance(s_, ast.AugAssign) and isinstance(s_.target, ast.Name) and isinstance(s_.op, ast.Add) and norm(s_.value) == "1":
+                inits = [a for a in walk_no_nested(f.node) if isinstance(a, ast.Assign) and norm(a.targets[0]) == s_.target.id]
+                if len(inits) == 1 and norm(inits[0].value) == "0":
+                    n_names.add(s_.target.id)
+        if isinstance(L.iter, ast.Call) and norm(L.iter.func) == "enumerate" and norm(L.iter) in (f"enumerate({sn}, 1)", f"enumerate({sn}, start=1)") and isinstance(L.target, ast.Tuple):
+            n_names.add(norm(L.target.elts[0]))
+        n_names |= {f"{sn}.num_units"}
+        divs = [s_ for s_ in walk_no_nested(f.node) if isinstance(s_, ast.AugAssign) and isinstance(s_.op, ast.Div) and isinstance(s_.target, ast.Subscript) and
+                norm(s_.target.value) == W]
+        div_ok = len(divs) == 1 and norm(divs[0].value) in n_names
+        if div_ok:
+            dl = [x for x in walk_no_nested(f.node) if isinstance(x, ast.For) and any(y is divs[0] for y in x.body)]
+            div_ok = len(dl) == 1 and len(dl[0].body) == 1 and norm(dl[0].iter) in (f"{W}.keys()", W, f"list({W})", f"list({W}.keys())") and \
+                norm(divs[0].target.slice) == norm(dl[0].target) and dl[0] is not L and not any(y is dl[0] for y in ast.walk(L))
+        # both halves of the count: started at one where the label is new, stepped by one where it is not (or the one-statement `get(k, 0) + 1` form)
+        has_get = any(isinstance(n_, ast.Assign) and ".get(" in norm(n_.value) for n_, _ in counts)
+        complete = has_get or (any(isinstance(n_, ast.AugAssign) for n_, _ in counts) and any(isinstance(n_, ast.Assign) for n_, _ in counts))
+        if counts and divs and not complete:
+            ctx.bad(rule, f, L, "category_weights: a label's count is not both started at one (label seen for the first time) and stepped by one (label seen again): "
+                    "its values are not the number of units carrying each label", key="category-weights-values")
+            return
+        if not counts or not divs:
+            ctx.undecided(rule, f, L, "category_weights: the counting by ones / the division by the number of units was not found in the recognised shape (not a verdict)",
+                          key="category-weights-values")
+        else:
+            ctx.check(all(ok for _, ok in counts) and div_ok, rule, f, divs[0],
+                      "category_weights: each unit adds one to its label's count, every count is divided once by the number of units",
+                      bad_detail="category_weights is not (number of units carrying the label) / (number of units): " +
+                                 ("a count is not started at / stepped by one; " if not all(ok for _, ok in counts) else "") +
+                                 ("the counts are not each divided once by a count of the units" if not div_ok else ""), key="category-weights-values")
         return
     if qn == "Continuum.iter_annotator":
         loops = [n for n in walk_no_nested(f.node) if isinstance(n, ast.For)]
